@@ -770,7 +770,8 @@ fn decompress_udp(
         return Err(Error);
     }
     let udp_payload_len = if let Some(total_len) = total_len {
-        total_len - *payload_len - 8
+        // The datagram size announced by the first fragment must have room for the headers.
+        total_len.checked_sub(*payload_len + 8).ok_or(Error)?
     } else {
         payload.len()
     };
